@@ -13,7 +13,7 @@ const compatPkg = "rueidis/rueidiscompat"
 func init() {
 	Registry["C41"] = RuleDef{Module: "rueidiscompat", Run: runC41,
 		Technique:   "sibling-shape comparison of all pipeline wrappers, path-wise min/max counting of queued commands through callee summaries, index-correspondence rule on Exec",
-		Explanation: "Decides for the go-redis adapter (R41a) that every command method of Pipeline calls the same-named Compat method exactly once with all its parameters in order, appends that call's result to the pipeline's result list exactly once on every path and returns it; (R41b) that every such Compat method, with the pipeline-only branch selected, executes exactly one client.Do (one queued command per queued result) on every non-panicking path and reaches no other client request method; (R41c) that Pipeline.Exec and TxPipeline.Exec fill result i from reply i (transaction: EXEC element i with the transport error of reply i+1), keep the first error, map a Nil EXEC to TxFailedErr, place MULTI first and EXEC last around the queued commands, and that Discard clears both queues.",
+		Explanation: "Decides for the go-redis adapter (R41a) that every command method of Pipeline calls the same-named Compat method exactly once with all its parameters in order, appends that call's result to the pipeline's result list exactly once on every path and returns it; (R41b) that every such Compat method, with the pipeline-only branch selected, executes exactly one client.Do (one queued command per queued result) on every non-panicking path and reaches no other client request method; (R41c) that Pipeline.Exec and TxPipeline.Exec fill result i from reply i (transaction: EXEC element i with the transport error of reply i+1), keep the first error, map a Nil EXEC to TxFailedErr, place MULTI first and EXEC last around the queued commands, and that Discard clears both queues; (R41d) a pipeline method that queues by hand (Do) adds a result holder exactly when it adds a command, on every path.",
 		NotDecided:  "that each adapter method builds the right Redis command (C42, no oracle); the element rotation inside TxPipeline.Exec beyond the append of MULTI and EXEC."}
 }
 
@@ -228,11 +228,15 @@ func runC41(r *Report) {
 			name := fn.Name()
 			target := p.Fn(compatPkg + ".(*Compat)." + name)
 			if target == nil {
+				balancedQueueRule(r, fn)
 				continue
 			}
 			calls := CallSites(fn, compatPkg+".(*Compat)."+name)
 			if len(calls) == 0 {
-				continue // not a delegating wrapper (Exec, Pipelined, ...)
+				// not a delegating wrapper (Exec, Pipelined, Do ...): if it queues by hand, every path
+				// queues as many results as commands
+				balancedQueueRule(r, fn)
+				continue
 			}
 			nWrap++
 			// R41a
@@ -410,12 +414,21 @@ func runC41(r *Report) {
 					if u, ok := in.(*ssa.UnOp); ok && u.Op == token.MUL && strings.HasSuffix(Desc(u), "TxFailedErr") {
 						txFailed = Guarded(b, func(g Guard) bool {
 							c, ok := g.Cond.(*ssa.Call)
-							return ok && g.Pol && CalleeName(c) == "rueidis.IsRedisNil"
+							if !ok || !g.Pol || CalleeName(c) != "rueidis.IsRedisNil" {
+								return false
+							}
+							// the tested error is the EXEC reply's own decoding error, not an element's
+							ex, isex := c.Call.Args[0].(*ssa.Extract)
+							if !isex || ex.Index != 1 {
+								return false
+							}
+							tc, istc := ex.Tuple.(*ssa.Call)
+							return istc && CalleeName(tc) == "rueidis.(RedisResult).ToArray"
 						})
 					}
 				}
 			}
-			r.Ob("R41c", fn, "nil-exec-is-txfailed", fn.Pos(), txFailed, "a Nil EXEC reply (WATCH abort) is reported as TxFailedErr")
+			r.Ob("R41c", fn, "nil-exec-is-txfailed", fn.Pos(), txFailed, "a Nil EXEC reply (WATCH abort) - and only the EXEC reply itself, not a null element of a committed transaction - is reported as TxFailedErr")
 		}
 		if typ != "Pipeline" {
 			continue // TxPipeline embeds *Pipeline: Discard and the wrappers are promoted
@@ -441,4 +454,55 @@ func descV(v ssa.Value) string {
 		return "<none>"
 	}
 	return Desc(v)
+}
+
+// balancedQueueRule (R41d): a pipeline method that appends to the result list or to the proxy's
+// command list by hand appends to both the same number of times on every path (a result without a
+// command shifts every later reply by one).
+func balancedQueueRule(r *Report, fn *ssa.Function) {
+	appendsTo := func(in ssa.Instruction, field string) bool {
+		st, ok := in.(*ssa.Store)
+		if !ok {
+			return false
+		}
+		_, f, _, isf := FieldRef(st.Addr)
+		if !isf || f != field {
+			return false
+		}
+		c, isc := st.Val.(*ssa.Call)
+		return isc && CalleeName(c) == "builtin.append"
+	}
+	touches := false
+	for _, b := range fn.Blocks {
+		for _, in := range b.Instrs {
+			if appendsTo(in, "rets") || appendsTo(in, "cmds") {
+				touches = true
+			}
+		}
+	}
+	if !touches {
+		return
+	}
+	ok := true
+	why := ""
+	complete := EnumBlockPaths(fn, 2000, func(path []*ssa.BasicBlock) {
+		nr, nc := 0, 0
+		for _, b := range path {
+			for _, in := range b.Instrs {
+				if appendsTo(in, "rets") {
+					nr++
+				}
+				if appendsTo(in, "cmds") {
+					nc++
+				}
+			}
+		}
+		if nr != nc {
+			ok, why = false, fmt.Sprintf("a path queues %d result(s) and %d command(s)", nr, nc)
+		}
+	})
+	if !complete {
+		ok, why = false, "too many paths to enumerate"
+	}
+	r.Ob("R41d", fn, "results-and-commands-queued-in-step", fn.Pos(), ok, "a hand-written queuing method adds a result holder exactly when it adds a command; "+why)
 }
